@@ -473,6 +473,23 @@ func OracleC06(ix *Index) ([]vp.Violation, Judged, string) {
 		if e.Kind != rig.KCtlRet || e.Op != "StopAndWait" || e.Err != "" {
 			continue
 		}
+		// premise: a HEALTHY pipeline. If a run failed before this stop (failure handler fired,
+		// or the status went Recovering/Degraded) earlier acks may legitimately be missing.
+		unhealthy := false
+		for i := 0; i < r; i++ {
+			if evs[i].Kind == rig.KFailure {
+				unhealthy = true
+			}
+			if evs[i].Kind == rig.KCommit && evs[i].Snap != nil {
+				if st := evs[i].Snap.Status[ix.Sc.Topo.Pipeline]; st == "Recovering" || st == "Degraded" {
+					unhealthy = true
+				}
+			}
+		}
+		if unhealthy {
+			j.ByHow["stops_skipped_pipeline_was_not_healthy"]++
+			continue
+		}
 		j.ByHow["stopandwait-returns-judged"]++
 		if FallbackWarned(evs[:r]) {
 			return nil, j, "engine logged a bounded-wait fallback warning; drained-state clauses are not decidable for this run"
